@@ -366,6 +366,51 @@ type fakeProc struct {
 	e     *env
 	id    int
 	calls int
+	root  *sharedRef // component funnelshared: the shared root this processor belongs to
+}
+
+// sharedRef: the shared-boundary root a fake of the shared sink sits in (component funnelshared).
+// The fakes record the control tokens of the shared-sink protocol, replayed by the Lean driver
+// component `sharedsink` (Model/SharedSink.lean) and ignored by `funnelmon` (every token starting
+// with 'S'):
+//
+//	SN[R:W]                 R shared roots, W source workers (first token)
+//	SP[r:src:l:p]           shared processor call inside root r on a batch of source src
+//	SW<d>[r:src:q:ok:l:p]   Destination.Write on d (root r) of records of source src; the
+//	                        destination queued q acks on its stream; ok=0: Write returned an error
+//	SK<d>[r:src:n:l:p]      one Destination.Ack() call on d by the goroutine that wrote for source
+//	                        src: a response with n acks was consumed (0: error / empty stream)
+//	SZ[src:ok|err|psn]      Worker.Do of source src returned (psn: CodeSharedDestinationPoisoned)
+//
+// l / p: the root's sharedMu was held / its poison latch was set at that instant
+// (TaskNode.VerifSharedState, build tag verif).
+type sharedRef struct {
+	node *funnel.TaskNode
+	idx  int
+}
+
+func (r *sharedRef) probe() string {
+	_, l, p := r.node.VerifSharedState()
+	b := func(x bool) string {
+		if x {
+			return "1"
+		}
+		return "0"
+	}
+	return b(l) + ":" + b(p)
+}
+
+// srcOfRecs: index of the source the records belong to (component funnelshared: tag = 100*src + n,
+// split pieces 1000*i + tag); -1 when unknown.
+func srcOfRecs(rs []opencdc.Record) int {
+	if len(rs) == 0 {
+		return -1
+	}
+	t := recOf(rs[0]).tag
+	if t < 0 {
+		return -1
+	}
+	return (t % 1000) / 100
 }
 
 func (p *fakeProc) Open(context.Context) error     { return nil }
@@ -373,6 +418,9 @@ func (p *fakeProc) Teardown(context.Context) error { return nil }
 
 func (p *fakeProc) Process(_ context.Context, in []opencdc.Record) []sdk.ProcessedRecord {
 	p.e.gate(p.id)
+	if p.root != nil {
+		p.e.emit(-1, fmt.Sprintf("SP[%d:%d:%s]", p.root.idx, srcOfRecs(in), p.root.probe()))
+	}
 	p.e.emit(p.id, fmt.Sprintf("P%d[%s]", p.id, recsStr(in)))
 	var rp reply
 	if p.e.gen {
@@ -494,6 +542,8 @@ type fakeDest struct {
 	stream  bool // ack responses form ONE stream: what a failed pass left unread is still there for the next reader
 	calls   int
 	pending []ackResp
+	root    *sharedRef     // component funnelshared: the shared root this destination belongs to
+	writer  map[uint64]int // goroutine -> source whose records it wrote last (attribution of Ack calls)
 }
 
 func (d *fakeDest) ID() string                     { return "t" + strconv.Itoa(d.id) }
@@ -530,6 +580,24 @@ func (d *fakeDest) Write(_ context.Context, rs []opencdc.Record) error {
 	} else {
 		d.pending = rp.resps
 	}
+	if d.root != nil {
+		q := 0
+		for _, rr := range rp.resps {
+			q += len(rr.acks)
+		}
+		ok := 1
+		if rp.writeErr >= 0 {
+			ok = 0
+		}
+		src := srcOfRecs(rs)
+		d.e.mu.Lock()
+		if d.writer == nil {
+			d.writer = map[uint64]int{}
+		}
+		d.writer[curGID()] = src
+		d.e.mu.Unlock()
+		d.e.emit(-1, fmt.Sprintf("SW%d[%d:%d:%d:%d:%s]", d.id, d.root.idx, src, q, ok, d.root.probe()))
+	}
 	if rp.writeErr >= 0 {
 		return &scriptErr{rp.writeErr}
 	}
@@ -537,14 +605,29 @@ func (d *fakeDest) Write(_ context.Context, rs []opencdc.Record) error {
 }
 
 func (d *fakeDest) Ack(context.Context) ([]connector.DestinationAck, error) {
+	sk := func(n int) {
+		if d.root == nil {
+			return
+		}
+		d.e.mu.Lock()
+		src, ok := d.writer[curGID()]
+		d.e.mu.Unlock()
+		if !ok {
+			src = -1
+		}
+		d.e.emit(-1, fmt.Sprintf("SK%d[%d:%d:%d:%s]", d.id, d.root.idx, src, n, d.root.probe()))
+	}
 	if len(d.pending) == 0 {
+		sk(0)
 		return nil, &scriptErr{999}
 	}
 	a := d.pending[0]
 	d.pending = d.pending[1:]
 	if a.err >= 0 {
+		sk(0)
 		return nil, &scriptErr{a.err}
 	}
+	sk(len(a.acks))
 	out := make([]connector.DestinationAck, len(a.acks))
 	for i, k := range a.acks {
 		out[i] = connector.DestinationAck{Position: opencdc.Position(k.pos.bytes())}
@@ -838,11 +921,14 @@ func runShared(r *gen.Rand, o *gen.Out) (lines []string, nontrivial bool) {
 	o.Count(fmt.Sprintf("shared: sources=%d dests=%d sharedProc=%v samePos=%v", nsrc, ndst, sharedProc, samePos))
 	// shared tail
 	var destNodes []*funnel.TaskNode
+	var sharedDests []*fakeDest
 	tailStr := ""
 	for d := 0; d < ndst; d++ {
 		id := 10 + d
 		e.branchOf[id] = d
-		destNodes = append(destNodes, &funnel.TaskNode{Task: funnel.NewDestinationTask("t"+strconv.Itoa(id), &fakeDest{e: e, id: id, stream: true}, logger, funnel.NoOpConnectorMetrics{})})
+		fd := &fakeDest{e: e, id: id, stream: true}
+		sharedDests = append(sharedDests, fd)
+		destNodes = append(destNodes, &funnel.TaskNode{Task: funnel.NewDestinationTask("t"+strconv.Itoa(id), fd, logger, funnel.NoOpConnectorMetrics{})})
 		if d > 0 {
 			tailStr += ","
 		}
@@ -850,10 +936,19 @@ func runShared(r *gen.Rand, o *gen.Out) (lines []string, nontrivial bool) {
 	}
 	roots := destNodes
 	if sharedProc {
-		pn := &funnel.TaskNode{Task: funnel.NewProcessorTask("t1", &fakeProc{e: e, id: 1}, logger, funnel.NoOpProcessorMetrics{})}
+		sp := &fakeProc{e: e, id: 1}
+		pn := &funnel.TaskNode{Task: funnel.NewProcessorTask("t1", sp, logger, funnel.NoOpProcessorMetrics{})}
 		pn.Next = destNodes
 		roots = []*funnel.TaskNode{pn}
 		tailStr = "P1(" + tailStr + ")"
+		sp.root = &sharedRef{node: pn, idx: 0}
+		for _, fd := range sharedDests {
+			fd.root = sp.root
+		}
+	} else {
+		for i, fd := range sharedDests {
+			fd.root = &sharedRef{node: destNodes[i], idx: i}
+		}
 	}
 	if _, err := funnel.NewSink(roots...); err != nil {
 		return nil, false
@@ -906,18 +1001,27 @@ func runShared(r *gen.Rand, o *gen.Out) (lines []string, nontrivial bool) {
 		st.w = w
 		srcs = append(srcs, st)
 	}
+	e.emit(-1, fmt.Sprintf("SN[%d:%d]", len(roots), len(srcs)))
 	var wg sync.WaitGroup
-	for _, st := range srcs {
+	for sidx, st := range srcs {
 		wg.Add(1)
-		go func(st *srcState) {
+		go func(sidx int, st *srcState) {
 			defer wg.Done()
 			defer func() {
 				if p := recover(); p != nil {
 					st.result = "panic"
+					e.emit(-1, fmt.Sprintf("SZ[%d:err]", sidx))
 				}
 			}()
 			st.result = classify(st.w.Do(context.Background()))
-		}(st)
+			cls := "err"
+			if st.result == "ok" {
+				cls = "ok"
+			} else if strings.Contains(st.result, "shared_destination_poisoned") || strings.Contains(st.result, "SharedDestinationPoisoned") {
+				cls = "psn"
+			}
+			e.emit(-1, fmt.Sprintf("SZ[%d:%s]", sidx, cls))
+		}(sidx, st)
 	}
 	wg.Wait()
 	for _, st := range srcs {
